@@ -211,3 +211,63 @@ func vh_C14_security_props_Q() {
 		symxCover("C14.security-props.accepted")
 	}
 }
+
+// C01 (annotation -> flat IR -> document): the reduced route carries exactly what the annotations say, and
+// both documents show it (or hide it) accordingly
+func vh_C01_reduce_Q() {
+	verb := vhVerbs[symxChoice("verb", len(vhVerbs))]
+	route := vhRouteText("route", -1)
+	prefix := vhRouteText("prefix", -1)
+	hidden := symxBool("hidden")
+	deprecated := symxBool("deprecated")
+	tag := "T" + symxString("tag", 0, 1, "ab")
+	rattrs := []annotations.Attribute{{Name: annotations.GleeceAnnotationMethod, Value: string(verb)}, {Name: annotations.GleeceAnnotationRoute, Value: route}}
+	if hidden {
+		rattrs = append(rattrs, annotations.Attribute{Name: annotations.GleeceAnnotationHidden})
+	}
+	if deprecated {
+		rattrs = append(rattrs, annotations.Attribute{Name: annotations.GleeceAnnotationDeprecated, Description: "old"})
+	}
+	cattrs := []annotations.Attribute{{Name: annotations.GleeceAnnotationTag, Value: tag}, {Name: annotations.GleeceAnnotationRoute, Value: prefix}}
+	rh := annotations.NewAnnotationHolderFromData(rattrs, nil)
+	ch := annotations.NewAnnotationHolderFromData(cattrs, nil)
+	ctrl := metadata.ControllerMeta{
+		Struct:    metadata.StructMeta{SymNodeMeta: metadata.SymNodeMeta{Name: "Ctl", Annotations: &ch}},
+		Receivers: []metadata.ReceiverMeta{{SymNodeMeta: metadata.SymNodeMeta{Name: "DoIt", Annotations: &rh}}},
+	}
+	reduced, err := ctrl.Reduce(metadata.ReductionContext{GleeceConfig: &definitions.GleeceConfig{}})
+	symxAssert(err == nil && len(reduced.Routes) == 1, "C01.reduce.no-error")
+	if err != nil || len(reduced.Routes) != 1 {
+		return
+	}
+	r := reduced.Routes[0]
+	symxAssert(r.OperationId == "DoIt", "C01.reduce.operationId-is-the-method-name")
+	symxAssert(r.HttpVerb == verb, "C01.reduce.verb-is-@Method")
+	symxAssert(r.RestMetadata.Path == route && reduced.RestMetadata.Path == prefix, "C01.reduce.paths-are-@Route")
+	symxAssert((r.Hiding.Type == definitions.HideMethodAlways) == hidden, "C01.reduce.hidden-iff-@Hidden")
+	symxAssert(r.Deprecation.Deprecated == deprecated, "C01.reduce.deprecated-iff-@Deprecated")
+	symxAssert(reduced.Tag == tag, "C01.reduce.tag-is-@Tag")
+	// and the documents
+	r.Responses = vhErrorOnly()
+	r.ResponseSuccessCode = 204
+	reduced.Routes[0] = r
+	doc30, doc31 := vhNewDoc30(), vhNewDoc31()
+	cfg := &definitions.OpenAPIGeneratorConfig{}
+	symxAssert(swagen30.GenerateControllersSpec(doc30, cfg, []definitions.ControllerMetadata{reduced}) == nil, "C01.reduce.30-no-error")
+	symxAssert(swagen31.GenerateControllersSpec(doc31, cfg, []definitions.ControllerMetadata{reduced}) == nil, "C01.reduce.31-no-error")
+	full := vhRefNorm(prefix + route)
+	for vi, ops := range [][]vhOpView{vhOps30(doc30), vhOps31(doc31)} {
+		ver := []string{"30", "31"}[vi]
+		op := vhFindOp(ops, full, string(verb))
+		if hidden {
+			symxCover("C01.reduce.hidden")
+			symxAssert(len(ops) == 0, "C01.reduce."+ver+".hidden-method-is-not-documented")
+		} else {
+			symxCover("C01.reduce.visible")
+			symxAssert(len(ops) == 1 && op != nil, "C01.reduce."+ver+".annotated-method-is-documented")
+			if op != nil {
+				symxAssert(op.opId == "DoIt" && len(op.tags) == 1 && op.tags[0] == tag && op.deprecated == deprecated, "C01.reduce."+ver+".operation-carries-name-tag-deprecation")
+			}
+		}
+	}
+}
